@@ -32,9 +32,18 @@ func GetInterfaceIP(iface *net.Interface) (ifaceIP net.IP, err error) {
 		return
 	}
 	if ipnet, ok := addrs[0].(*net.IPNet); ok {
+		if !isIPv4Entry(ipnet) {
+			return nil, nil
+		}
 		return ipnet.IP, nil
 	}
 	return nil, fmt.Errorf("invalid IP address: %v", addrs[0])
+}
+
+// isIPv4Entry tells an IPv4 interface address from an IPv6 one; an IPv4-mapped IPv6 address
+// (::ffff:a.b.c.d/120) converts with To4() but is not an IPv4 address of the interface.
+func isIPv4Entry(ipnet *net.IPNet) bool {
+	return len(ipnet.Mask) == net.IPv4len
 }
 
 func GetLocalSubnetInterface(dstSubnet *net.IPNet) (iface *net.Interface, ifaceIP net.IP, err error) {
@@ -61,7 +70,7 @@ func GetLocalSubnetInterfaceIP(iface *net.Interface, dstSubnet *net.IPNet) (net.
 		return nil, err
 	}
 	for _, addr := range addrs {
-		if ipnet, ok := addr.(*net.IPNet); ok && ipnet.Contains(dstSubnetIP) {
+		if ipnet, ok := addr.(*net.IPNet); ok && isIPv4Entry(ipnet) && ipnet.Contains(dstSubnetIP) {
 			return ipnet.IP, nil
 		}
 	}
